@@ -176,7 +176,7 @@ def run_case(case):
   for w in range(nworld):
     rows = mw.efc_rows(mjm, m, d, w)
     rows_w.append(rows)
-    if rows["nefc_raw"] > d.njmax or nac > d.naconmax or not rows["J_ok"]:
+    if not E.capacity_ok(d, w, rows):
       rec.count("worlds_capacity_exceeded")
       continue
     n = rows["nefc"]
@@ -337,7 +337,8 @@ def run_case(case):
       for w in range(nworld):
         r1, r2 = rows_w[w], mw.efc_rows(mjm2, m2, d2, w)
         ctx = f"world {w} (dense vs sparse)"
-        if r1["nefc_raw"] > d.njmax or r2["nefc_raw"] > d2.njmax or not (r1["J_ok"] and r2["J_ok"]):
+        if not (E.capacity_ok(d, w, r1, ovf1) and E.capacity_ok(d2, w, r2, ovf2)):
+          rec.count("dense_vs_sparse_worlds_capacity_exceeded")
           continue
         rec.cover("dense_vs_sparse_worlds", 1)
         v0 = cmp.first_divergence(rec, "nefc", np.array([r1["ne"], r1["nf"], r1["nl"], r1["nefc"]]), np.array([r2["ne"], r2["nf"], r2["nl"], r2["nefc"]]), sig_prefix="dense_vs_sparse:", ctx=ctx)
